@@ -38,7 +38,13 @@ func (m *modEngine) mutatesParamSpec(fn *ssa.Function, idx int, spec string) (bo
 	m.memo[key] = 2
 	p := fn.Params[idx]
 	var derived func(v ssa.Value) bool
+	derivedSeen := map[ssa.Value]bool{}
 	derived = func(v ssa.Value) bool {
+		if derivedSeen[v] {
+			return false // a cycle of phis (a loop): already being looked at
+		}
+		derivedSeen[v] = true
+		defer delete(derivedSeen, v)
 		if rootsAtDeep(v, p, 0) {
 			return true
 		}
